@@ -185,4 +185,13 @@ def run(ctx):
                 if outs != {"Identity"}:
                     bad5.append((stt, ver, ln, sorted(outs)))
     ctx.ob("C18.5", "%s|1xx-identity" % cte.id, "a 1xx response is never chunked, whatever the request's TE header, version and the body length say", not bad5, "%s:%d" % (cte.file, cte.line), None if not bad5 else str(bad5[:3]))
+    # ---- C18.7 flushing the request's writer takes its turn and flushes the socket (the writer chain's rule C01.2, taken over)
+    import rules_C01, engine
+    c2_ = engine.Ctx("C18", "quick", facts, 0)
+    try:
+        rules_C01.run(c2_)
+        n_ = engine.take_over(ctx, c2_.obs, lambda o: o.rule == "C01.2" and "flush" in o.key, "C18.7", "the interim response reaches the wire at once: ")
+        ctx.floor("C18.7 obligations on the writer's flush", n_, 1)
+    except CheckerError as e:
+        ctx.ob("C18.7", "writer-flush", "the turn-taking writer could be evaluated", False, "sequential.rs", str(e))
     return {}
